@@ -39,6 +39,10 @@ def run_one(req):
       return {'status': 'fail', 'label': f.label, 'checks': c.checks}
     except C.AssumeFailed:
       return {'status': 'assume', 'checks': c.checks}
+    except Exception as e:  # pylint: disable=broad-except
+      return {'status': 'fail',
+              'label': 'unexpected exception %s' % type(e).__name__,
+              'checks': c.checks, 'error': traceback.format_exc()[-1500:]}
     return {'status': 'ok', 'checks': c.checks}
   except BaseException:  # pylint: disable=broad-except
     return {'status': 'error', 'error': traceback.format_exc()[-3000:]}
